@@ -34,6 +34,13 @@ ANCHORS = ["common/dyadcarrier.py"]
 TIMEOUT_CASE = 60
 
 RTOL = 1e-10
+UNREACHABLE = ["DyadCarrier.min / max (documented as approximations; not part of the statement)",
+               "DyadCarrier.toarray (alias of todense), iscomplex, size (not part of the statement)",
+               "shapeless carriers DyadCarrier() and the (-1,-1) branches of __getitem__/__add__/size"]
+EXPLANATION = ("Mechanisms are '<public operation>/<what is wrong>'.  Four deterministic corner programs "
+               "(kind=corner) probe operations that have a dense meaning but sit on a boundary of the implementation; "
+               "each has its own mechanism name so that a deviation there cannot hide behind, or be confused with, "
+               "the random programs (which never contain these four constructs).")
 
 # ----------------------------------------------------------------------------- operation catalogue
 CONSTRUCT = ["construct"]
@@ -91,7 +98,7 @@ ASSUMPTIONS = [
     "purity is judged on digests of the stored vectors (bytes), dtype and shape, for all live carriers and all "
     "operands ever passed (arrays, lists of arrays, sparse matrices, index arrays)",
     "a carrier added to itself in place is run under a 0.4 s CPU-time guard (ITIMER_VIRTUAL), every other operation "
-    "under a 3 s CPU-time guard (a conforming operation on <= 7x7 data needs milliseconds; CPU time does not depend "
+    "under a 1.5 s CPU-time guard (a conforming operation on <= 7x7 data needs milliseconds; CPU time does not depend "
     "on the machine load); reaching the guard is reported as <operation>/does-not-terminate",
     "sparse operands: csr/csc/coo_matrix, csr/csc_array (coo_array only in contract_multi: scipy 1.18 returns a 0-d "
     "scalar for vector @ coo_array((n,1)), which is not pyMOTO's doing)",
@@ -202,7 +209,7 @@ class _Guard(BaseException):
     pass
 
 
-GUARD_S = 3.0     # CPU seconds granted to one operation (a conforming one needs milliseconds)
+GUARD_S = 1.5     # CPU seconds granted to one operation (a conforming one needs milliseconds)
 
 
 class _cpu_guard:
